@@ -146,6 +146,15 @@ def run(ctx):
         # cached fees used when present, else recomputed from the block's transactions (filter_map over get_tx_fee_per_byte)
         fr_ = [k for k in f.calls_to('ic_btc_canister::blocktree::CachedBlock::fee_rates') if not k.cleanup]
         rc = [k for kk in [f] + prog.descendants(f) for k in kk.calls_to(FP + 'get_tx_fee_per_byte') if not k.cleanup]
+        # the fallback visits the block's transactions in block order, like the insertion-time path
+        fwd = False
+        for kk in [f] + prog.descendants(f):
+            ek = ex(prog, kk)
+            for c_ in kk.calls():
+                if not c_.cleanup and c_.matches('core::iter::traits::iterator::Iterator::filter_map') and P.call('core::slice::iter', P.call('ic_btc_types::Block::txdata', P.anything))(ek.operand(c_.args[0])):
+                    fwd = True
+        ctx.check(fwd, 'R2', 'fallback-block-order', f, 'the fallback maps block.txdata().iter() in block order (no reordering adaptor), like the insertion-time computation',
+                  'the fallback does not iterate block.txdata() in block order: cached and recomputed fee lists differ in order')
         ctx.check(len(fr_) == 1 and len(rc) == 1, 'R3', 'cached-or-recomputed', fr_[0] if fr_ else f, 'per block: cached fee rates if present, else recomputed from its transactions', 'cached/recompute structure not found')
     # ---------------- R4 ------------------------------------------------------------------------
     require_writers(ctx, 'R4', 'writers:fee_percentiles_cache', 'ic_btc_canister::state::GenericState', 'fee_percentiles_cache', {w, 'ic_btc_canister::state::GenericState::map_tree'}, floor=1)
